@@ -75,6 +75,9 @@ pub enum Ev {
     Attach { sub: usize, mode: u8, back: u64 },
     /// the slow client reads what it can (up to `n` events; 0 = until caught up)
     ClientRead { client: usize, n: usize },
+    /// a client attaches while subscription `sub` is in the middle of a batch: its events are
+    /// already out (to the subscribers that existed), its transaction is not committed yet
+    AttachMidBatch { sub: usize, mode: u8 },
     /// the subscriber node stops and starts again (C13). kind: 0 = graceful (production
     /// order: tripwire, tasks, `late` transaction while subscriptions drain, drop_handles),
     /// 1 = killed at this instant, 2 = killed in the middle of a graceful shutdown (after the
@@ -347,6 +350,12 @@ impl World {
         if self.h(idx)?.changes_tx().send(sentinel(table)).await.is_err() {
             return Ok(Err(vio("C11", "matcher-stopped", json!({"sql": self.subs[idx].sql}))));
         }
+        self.flush_collect(idx, before).await
+    }
+
+    /// second half of a forced flush: wait for the batch, read the creating subscriber's
+    /// stream up to the newest logged change, compare with the query
+    async fn flush_collect(&mut self, idx: usize, before: u64) -> R<Result<(), Violation>> {
         let start = Instant::now();
         while verif::batches_done() == before {
             if start.elapsed() > Duration::from_secs(30) {
@@ -1048,6 +1057,44 @@ impl World {
                 self.stats.ev("Attach");
                 self.attach(*sub, *mode, *back).await
             }
+            Ev::AttachMidBatch { sub, mode } => {
+                self.stats.ev("AttachMidBatch");
+                if self.subs.is_empty() {
+                    return Ok(Ok(()));
+                }
+                let idx = *sub % self.subs.len();
+                if self.subs[idx].dead {
+                    return Ok(Ok(()));
+                }
+                // nothing held back, every announcement delivered to the loops
+                verif::gate_release("bcast");
+                self.s.quiesce().await?;
+                let table = TEMPLATES[self.subs[idx].template % TEMPLATES.len()].1;
+                let before = verif::batches_done();
+                verif::gate_arm("matcher-before-commit");
+                if self.h(idx)?.changes_tx().send(sentinel(table)).await.is_err() {
+                    verif::gate_release("matcher-before-commit");
+                    return Ok(Err(vio("C11", "matcher-stopped", json!({"sql": self.subs[idx].sql}))));
+                }
+                let start = Instant::now();
+                while verif::gate_parked("matcher-before-commit") == 0 {
+                    if start.elapsed() > Duration::from_secs(30) {
+                        verif::gate_release("matcher-before-commit");
+                        return Ok(Err(vio("C11", "matcher-stopped", json!({"sql": self.subs[idx].sql, "note": "batch never reached its commit"}))));
+                    }
+                    tokio::time::sleep(Duration::from_micros(200)).await;
+                }
+                self.stats.fault("attach-in-the-middle-of-a-batch");
+                // from scratch or resuming from the newest id the creating subscriber has seen
+                let r = self.attach(idx, if *mode % 2 == 0 { 0 } else { 2 }, 0).await?;
+                // let the catch-up do its reads against the uncommitted state
+                tokio::time::sleep(Duration::from_millis(25)).await;
+                verif::gate_release("matcher-before-commit");
+                if let Err(v) = r {
+                    return Ok(Err(v));
+                }
+                self.flush_collect(idx, before).await
+            }
             Ev::ClientRead { client, n } => {
                 self.stats.ev("ClientRead");
                 if *n > 0 {
@@ -1172,6 +1219,11 @@ pub fn generate_for(seed: u64, check: &str) -> Vec<Ev> {
             }
             continue;
         }
+        if !lifecycle && r.chance(0.08) {
+            evs.push(Ev::Write { node: 0, stmts: g.gen_write(&wl, 0) });
+            evs.push(Ev::AttachMidBatch { sub: r.usize_below(3), mode: r.below(2) as u8 });
+            continue;
+        }
         if r.chance(0.15) {
             evs.push(Ev::Attach { sub: r.usize_below(3), mode: r.below(3) as u8, back: r.below(6) });
             continue;
@@ -1230,6 +1282,7 @@ pub async fn run_events(seed: u64, events: &[Ev], base: &Path, tag: &str) -> R<R
             Ev::ReleaseBcast => "R".into(),
             Ev::Attach { mode, .. } => format!("T{mode}"),
             Ev::ClientRead { n, .. } => format!("c{}", (*n).min(2)),
+            Ev::AttachMidBatch { mode, .. } => format!("M{mode}"),
             Ev::RestartS { kind, late, .. } => format!("X{kind}{}", late.is_some() as u8),
         };
         fnv(&mut sh, s.as_bytes());
